@@ -208,6 +208,15 @@ func New(config ...Config) fiber.Handler {
 			return nil
 		}
 
+		// Replace, not add: an entry of this key that is still cached (a no-cache refresh, or a concurrent
+		// miss that stored first) hands its heap slot and its bytes back before the new one is counted
+		if cfg.MaxBytes > 0 {
+			if old := manager.get(key); old != nil && old.exp != 0 {
+				_, size := heap.remove(old.heapidx)
+				storedBytes -= size
+			}
+		}
+
 		// Remove oldest to make room for new
 		if cfg.MaxBytes > 0 {
 			for storedBytes+bodySize > cfg.MaxBytes {
